@@ -75,7 +75,7 @@ func vxSymSearchSwitches(soundOnly bool) {
 	S := &Settings.Search
 	S.UsePVS = vxBool("UsePVS")
 	S.UseKiller = vxBool("UseKiller")
-	S.UseIID = vxBool("UseIID") && !vxNoIID()
+	S.UseIID = vxBool("UseIID")
 	S.UseMDP = vxBool("UseMDP")
 	S.UseTTMove = vxBool("UseTTMove")
 	S.UseHistoryCounter = false // ordering tables only feed the (scripted) generator
@@ -309,10 +309,6 @@ func VH_C06_search_node_exact() {
 	alpha, beta := Value(vxI16("alpha")), Value(vxI16("beta"))
 	vxAssume(alpha >= ValueMin && alpha < beta && beta <= ValueMax)
 	isPV := vxBool("isPV")
-	if vxDbgMode() == 1 {
-		Settings.Search.UsePVS, Settings.Search.UseMDP, Settings.Search.UseTT, Settings.Search.UseKiller = false, false, false, false
-		vxAssume(n.k == 1)
-	}
 	r := s.search(p, depth, ply, alpha, beta, isPV, true)
 	vxPrint("r", r)
 	vxPrint("movesSearched-next", n.next)
@@ -329,11 +325,6 @@ func VH_C06_search_node_exact() {
 		} else {
 			T = ValueDraw
 		}
-	}
-	if vxDbgMode() == 1 {
-		vxAssume(alpha == -9024 && beta == 240 && t[0] == -8416 && n.legal[0] && !n.hasCheck && depth == 4 && !isPV && !isDraw[0])
-		vxAssert(r == 8416, "dbg.r==8416")
-		vxAssert(r != 0, "dbg.r!=0")
 	}
 	if r <= alpha {
 		vxAssert(T <= r, "search.fail-low-result-is-an-upper-bound")
@@ -495,21 +486,4 @@ func VH_C05_savePV() {
 		}
 	}
 	vxReach("savePV.end")
-}
-
-func vxNoIID() bool { return false }
-
-func vxDbgMode() int { return 0 }
-
-
-
-func(pp *position.Position, depth, cply int, a, b Value) Value {
-		v := Value(vxFreshI16("cv"))
-		vxAssume(v == -1664)
-		return v
-	})
-	vxStub(vxSrchPfx+"checkDrawRepAnd50", func(ss *Search, pp *position.Position, i int) bool { return false })
-	r := s.search(p, 4, 1, -9024, 240, false, true)
-	vxPrint("r", r)
-	vxAssert(r == 1664, "dbg-concrete-r")
 }
